@@ -29,9 +29,22 @@ def _val(e, env):
         return e.value
     if isinstance(e, ast.Name) and e.id in env:
         return env[e.id]
-    if isinstance(e, ast.BinOp) and isinstance(e.op, (ast.Add, ast.Sub)):
+    if isinstance(e, ast.BinOp) and isinstance(e.op, (ast.Add, ast.Sub, ast.Mult, ast.FloorDiv)):
         a, b = _val(e.left, env), _val(e.right, env)
-        return a + b if isinstance(e.op, ast.Add) else a - b
+        if isinstance(e.op, ast.Add):
+            return a + b
+        if isinstance(e.op, ast.Sub):
+            return a - b
+        if isinstance(e.op, ast.Mult):
+            return a * b
+        if b == 0:
+            raise NotTabular("division by zero")
+        return a // b
+    if isinstance(e, ast.BinOp) and isinstance(e.op, ast.Div):
+        a, b = _val(e.left, env), _val(e.right, env)
+        if b == 0:
+            raise NotTabular("division by zero")
+        return a / b
     if isinstance(e, ast.UnaryOp) and isinstance(e.op, ast.USub):
         return -_val(e.operand, env)
     raise NotTabular(ast.dump(e)[:60])
